@@ -88,7 +88,7 @@ func (r *Runner) prove(j Job) *FuncProof {
 		return nil
 	}
 	fc := r.eng.contracts.Funcs[j.Key]
-	opts := ProofOpts{Mode: j.Mode, QuickMs: r.quickMs, SlowMs: r.slowMs, Thorough: r.thorough, Sim: j.Sim}
+	opts := ProofOpts{Mode: j.Mode, QuickMs: r.quickMs, SlowMs: r.slowMs, Thorough: r.thorough, Sim: j.Sim, Rel: j.Rel}
 	if j.Only != "" {
 		opts.OnlyKinds = map[string]bool{j.Only: true}
 	}
